@@ -1,5 +1,6 @@
 """C08 -- resuming a saved session loses nothing and repeats at most the tied group."""
 from pyvc.runner import Prop, Bounded, script_replay
+from pyvc import effects
 import contracts.guesser_core as gc
 import contracts.guesser_restore as gr
 import contracts.guesser_session as gs
@@ -24,6 +25,7 @@ PROP = Prop(
                gs.CS + ':CrackingSession._save_session', gs.CS + ':CrackingSession.run', 'pcfg_guesser:load_save', 'pcfg_guesser:main'],
     setup=gs.install,
     lemmas=lemmas,
+    effects=effects.state_frame_for('C08', ['lib_guesser/pcfg_grammar.py', 'lib_guesser/priority_queue.py', 'lib_guesser/grammar_io.py', 'lib_guesser/cracking_session.py', 'pcfg_guesser.py']),
     level='other',
     replay=script_replay('replay/restore.py', default_fn='CUTS'),
     bounded=[Bounded('C08.bounded.cuts', 'replay/restore.py', args=['--fn', 'CUTS'],
